@@ -47,4 +47,17 @@ def respondLift (ws : List String) : Option String :=
         | .ok lm => some (showLModule lm)
         | .err e => some ("err " ++ showConvErr e)
         | .panic _ => some "panic"
+  | ["liftv", v, hx] =>
+    -- the module's header version word overwritten after loading (a `dr::Module` can carry any word there)
+    match unhex hx, v.toNat? with
+    | some bytes, some vw =>
+      match loadBytes theTables theLTables bytes with
+      | .error _ => some "load-error"
+      | .ok m =>
+        let m' : Module Inst := { m with header := m.header.map (fun h => { h with version := vw }) }
+        match convert Rspirv.Instances.theLiftTables m' with
+        | .ok lm => some (showLModule lm)
+        | .err e => some ("err " ++ showConvErr e)
+        | .panic _ => some "panic"
+    | _, _ => some "bad-request"
   | _ => none
